@@ -99,5 +99,6 @@ static int op_kalign_sys(int argc, char **argv, FILE *out)
 struct kv_op kv_ops_pipe[] = {
         {"kalign_sys", op_kalign_sys},
         {"kalign_sys_soft", op_kalign_sys},   /* model side: SoftF32 carrier (Model/PipelineSoft.lean) */
+        {"kalign_sys_soft2", op_kalign_sys},  /* model side: SoftF32 carrier + SoftF32 upgma guide tree (Model/TreeSoft.lean) */
         {NULL, NULL}
 };
